@@ -118,6 +118,87 @@ def _strip_j(n):
     return n
 
 
+def _split_decl_inits(fn):
+    """AST normalisation: `int mask = -2;` inside a block is stored as `int mask; mask = -2;` (declaration, then an assignment statement at
+    the same place) - "initialise where declared" and "declare, then assign" are one program for non-static scalars and pointers."""
+    n_ = 0
+    for blk in list(_jwalk(fn)):
+        if blk.get("kind") != "CompoundStmt":
+            continue
+        inner = blk.get("inner") or []
+        out = []
+        for st in inner:
+            out.append(st)
+            if not (isinstance(st, dict) and st.get("kind") == "DeclStmt") or st.get("_inl"):
+                continue
+            for vd in st.get("inner") or []:
+                if not (isinstance(vd, dict) and vd.get("kind") == "VarDecl" and vd.get("init") == "c" and vd.get("inner")):
+                    continue
+                qt = vd.get("type", {}).get("qualType", "")
+                if vd.get("storageClass") == "static" or "[" in qt or vd.get("_inl"):
+                    continue
+                init = vd["inner"][-1]
+                if _strip_j(init).get("kind") == "InitListExpr":
+                    continue
+                rng = vd.get("range", st.get("range", {}))
+                ref = {"kind": "DeclRefExpr", "type": vd.get("type", {}), "valueCategory": "lvalue", "range": rng,
+                       "referencedDecl": {"id": vd["id"], "kind": "VarDecl", "name": vd.get("name"), "type": vd.get("type", {})}}
+                asg = {"kind": "BinaryOperator", "opcode": "=", "type": vd.get("type", {}), "valueCategory": "rvalue", "range": init.get("range", rng),
+                       "inner": [ref, init], "_declinit": True}
+                vd["inner"] = vd["inner"][:-1]
+                vd.pop("init", None)
+                if not vd["inner"]:
+                    vd.pop("inner")
+                out.append(asg)
+                n_ += 1
+        blk["inner"] = out
+    return n_
+
+
+def _inline_enum_constants(roots):
+    """AST normalisation: a reference to an enumerator (`enum { PT_MASK = -2 }` .. `imo[ip] = PT_MASK`) is read as the integer it names:
+    a marker value written as a literal, as a never-modified local or as an enumerator is one program."""
+    vals = {}
+    for r in roots:
+        for n in _jwalk(r):
+            if n.get("kind") == "EnumDecl":
+                nxt = 0
+                for e in n.get("inner") or []:
+                    if not (isinstance(e, dict) and e.get("kind") == "EnumConstantDecl"):
+                        continue
+                    v = None
+                    for x in _jwalk(e):
+                        if x.get("kind") == "ConstantExpr" and "value" in x:
+                            try:
+                                v = int(x["value"])
+                            except (TypeError, ValueError):
+                                v = None
+                            break
+                    if v is None:
+                        v = nxt
+                    vals[e["id"]] = v
+                    nxt = v + 1
+    if not vals:
+        return 0
+    n_ = 0
+    for r in roots:
+        for n in _jwalk(r):
+            inner = n.get("inner")
+            if not inner:
+                continue
+            for i, c in enumerate(inner):
+                if isinstance(c, dict) and c.get("kind") == "DeclRefExpr" and c.get("referencedDecl", {}).get("kind") == "EnumConstantDecl" \
+                        and c["referencedDecl"].get("id") in vals:
+                    v = vals[c["referencedDecl"]["id"]]
+                    lit = {"kind": "IntegerLiteral", "value": str(abs(v)), "type": {"qualType": "int"}, "valueCategory": "prvalue", "range": c.get("range", {})}
+                    if v < 0:
+                        lit = {"kind": "UnaryOperator", "opcode": "-", "isPostfix": False, "type": {"qualType": "int"}, "valueCategory": "prvalue",
+                               "range": c.get("range", {}), "inner": [lit]}
+                    inner[i] = lit
+                    n_ += 1
+    return n_
+
+
 def _propagate_locals(fn):
     """AST normalisation (copy propagation): a local scalar / pointer that is defined exactly once, by an expression whose operands
     cannot change between the definition and the uses, is replaced by that expression at its uses and the definition is dropped:
@@ -811,6 +892,20 @@ def _normalise_control(root):
                                       {"kind": "ReturnStmt", "range": s_.get("range", {}), "inner": [b]}]
                     count += 1
                     continue
+            # x = c ? a : b;   ->   if (c) x = a; else x = b;      (lvalue without side effects)
+            if s_.get("kind") == "BinaryOperator" and s_.get("opcode") == "=" and len(s_.get("inner") or []) == 2:
+                e = _strip_j(s_["inner"][1])
+                lhs_ = s_["inner"][0]
+                if e.get("kind") == "ConditionalOperator" and len(e.get("inner", [])) == 3 \
+                        and not any(x.get("kind") in ("CallExpr", "UnaryOperator") and (x.get("kind") == "CallExpr" or x.get("opcode") in ("++", "--"))
+                                    for x in _jwalk(lhs_)):
+                    c, a, b = e["inner"]
+                    def _asg(v_):
+                        return {"kind": "BinaryOperator", "opcode": "=", "type": s_.get("type", {}), "valueCategory": s_.get("valueCategory", "rvalue"),
+                                "range": v_.get("range", s_.get("range", {})), "inner": [_jcopy(lhs_), v_]}
+                    inner[i] = {"kind": "IfStmt", "range": s_.get("range", {}), "hasElse": True, "inner": [c, _asg(a), _asg(b)]}
+                    count += 1
+                    continue
             if s_.get("kind") == "IfStmt":
                 parts = s_.get("inner") or []
                 if len(parts) == 3 and _ends_with_jump(parts[2]) and not _ends_with_jump(parts[1]):
@@ -964,11 +1059,12 @@ class CFile:
             raise AnalysisError("Python.h / numpy headers not found for clang")
         roots = _multi_json(_dump(path, filt, inc))
         self.norm_renamed = _rename_c_functions(roots, self._in_main, os.path.basename(path)) if filt is None else 0
-        self.norm_control = 0
+        self.norm_control = _inline_enum_constants(roots) if filt is None else 0
         for r in roots:
             tops = r.get("inner", []) if r.get("kind") == "TranslationUnitDecl" else [r]
             for n in tops:
                 if n.get("kind") == "FunctionDecl" and self._in_main(n):
+                    self.norm_control += _split_decl_inits(n)
                     self.norm_control += _normalise_control(n)
         for r in roots:
             _normalise(r)
